@@ -1,6 +1,7 @@
 package checks
 
 import (
+	"bytes"
 	"encoding/json"
 	"fmt"
 	"math"
@@ -331,6 +332,12 @@ func c07One(c *Ctx, idx int, local map[string]int64) {
 	if err == nil && idx%2 == 0 {
 		c07Stream(c, idx, tmpl, params, st, local)
 	}
+	if err == nil && idx%2 == 1 {
+		c07Scribble(c, idx, tmpl, params, st, local)
+		if !strings.Contains(gc.Text, "$") { // (the renaming below is textual)
+			c07Fed(c, idx, tmpl, params, st, local)
+		}
+	}
 	allInline, allSame := true, true
 	for _, s := range slots {
 		allInline = allInline && s.inlineOK
@@ -577,6 +584,171 @@ func c07Stream(c *Ctx, idx int, tmpl string, params map[string]interface{}, want
 	local["stream.unbound-after-rebind-fails"]++
 }
 
+// c07Scribble: the caller's map belongs to the caller. After SetParams it
+// overwrites and deletes what the map (and the objects inside it) holds; the
+// statement is parsed with the values that were bound.
+func c07Scribble(c *Ctx, idx int, tmpl string, params map[string]interface{}, want influxql.Statement, local map[string]int64) {
+	r := c.R
+	cp := map[string]interface{}{}
+	for k, v := range params {
+		if m, ok := v.(map[string]interface{}); ok {
+			m2 := map[string]interface{}{}
+			for kk, vv := range m {
+				m2[kk] = vv
+			}
+			cp[k] = m2
+		} else {
+			cp[k] = v
+		}
+	}
+	var st influxql.Statement
+	var err error
+	if p, pv, stk := mon.Try(func() {
+		ps := influxql.NewParser(strings.NewReader(tmpl))
+		ps.SetParams(cp)
+		for k, v := range cp {
+			if m, ok := v.(map[string]interface{}); ok {
+				for kk := range m {
+					m[kk] = "scribbled'; DROP DATABASE x --"
+				}
+				m["regex"] = "("
+			}
+			cp[k] = "scribbled"
+			if len(k)%2 == 0 {
+				delete(cp, k)
+			}
+		}
+		var q *influxql.Query
+		q, err = ps.ParseQuery()
+		if err == nil && len(q.Statements) == 1 {
+			st = q.Statements[0]
+		}
+	}); p {
+		r.Violation("panic", map[string]interface{}{"idx": idx, "input": tmpl, "params": fmt.Sprintf("%#v", params), "why": fmt.Sprint(pv), "stack": stk})
+		return
+	}
+	r.Eval(1)
+	if err != nil || st == nil || dumpOf(st) != dumpOf(want) {
+		why := fmt.Sprint(err)
+		if err == nil && st != nil {
+			why = astx.FirstDiff(dumpOf(want), dumpOf(st))
+		}
+		r.Violation("placeholder-value-differs", map[string]interface{}{"idx": idx, "input": tmpl, "params": fmt.Sprintf("%#v", params), "why": "the caller edited its own map (and the objects in it) after SetParams; the statement must still carry the values that were bound: " + why})
+		return
+	}
+	local["caller-edits-its-map-after-SetParams"]++
+}
+
+// c07Fed: the parser reads from a buffer that is filled statement by
+// statement (a console): the template, an end of input, then the template
+// again under other placeholder names bound to other values.
+func c07Fed(c *Ctx, idx int, tmpl string, params map[string]interface{}, want influxql.Statement, local map[string]int64) {
+	r := c.R
+	all := map[string]interface{}{}
+	second := map[string]interface{}{}
+	for k, v := range params {
+		if !strings.HasPrefix(k, "p") {
+			return // (names with a sigil of their own, decoys)
+		}
+		all[k] = v
+		nv := v
+		switch x := v.(type) {
+		case string:
+			nv = x + "_fed"
+		case float64:
+			nv = x + 2
+		case bool:
+			nv = !x
+		}
+		all["r"+k[1:]] = nv
+		second["p"+k[1:]] = nv
+	}
+	tmpl2 := strings.ReplaceAll(strings.ReplaceAll(tmpl, "$p", "$r"), "$\"p", "$\"r")
+	if strings.Count(tmpl2, "$r") != strings.Count(tmpl, "$p")+strings.Count(tmpl, "$\"p")-strings.Count(tmpl2, "$\"r") {
+		return
+	}
+	want2, err2, pan2, _, _ := parseWithParams(tmpl, second)
+	if pan2 || err2 != nil {
+		return
+	}
+	buf := &bytes.Buffer{}
+	buf.WriteString(tmpl)
+	var s1, s2 influxql.Statement
+	var e1, e2 error
+	sawEOF := false
+	if p, pv, stk := mon.Try(func() {
+		ps := influxql.NewParser(buf)
+		ps.SetParams(all)
+		if s1, e1 = ps.ParseStatement(); e1 != nil {
+			return
+		}
+		for k := 0; k < 3; k++ {
+			if tok, _, _ := ps.ScanIgnoreWhitespace(); tok == influxql.EOF {
+				sawEOF = true
+				break
+			}
+		}
+		if !sawEOF {
+			return
+		}
+		buf.WriteString(" " + tmpl2)
+		s2, e2 = ps.ParseStatement()
+	}); p {
+		r.Violation("panic", map[string]interface{}{"idx": idx, "input": tmpl + " <end of input, then> " + tmpl2, "params": fmt.Sprintf("%#v", all), "why": fmt.Sprint(pv), "stack": stk})
+		return
+	}
+	r.Eval(1)
+	if e1 != nil || !sawEOF || dumpOf(s1) != dumpOf(want) {
+		local["fed.first-statement-not-isolated(skipped)"]++
+		return
+	}
+	if e2 != nil {
+		local["fed.nothing-read-after-end-of-input"]++
+		return
+	}
+	if dumpOf(s2) != dumpOf(want2) {
+		r.Violation("placeholder-value-differs", map[string]interface{}{"idx": idx, "input": tmpl + " <end of input, then> " + tmpl2, "params": fmt.Sprintf("%#v", all), "why": "the statement read after the end of input carries other values than its placeholders are bound to: " + astx.FirstDiff(dumpOf(want2), dumpOf(s2))})
+		return
+	}
+	local["fed.second-statement-after-end-of-input"]++
+}
+
+// c07Lines: expressions read one per line by one parser, the parameters
+// re-bound before each line (the previous ParseExpr has already looked at the
+// next line's first token).
+func c07Lines(c *Ctx) {
+	r := c.R
+	vals := []interface{}{"web' OR '1' = '1", int64(10), 2.5, true, "plain", int64(-3), map[string]interface{}{"identifier": "col a"}, map[string]interface{}{"duration": "90m"}}
+	text := "$v = host\n$v = host\n$v = host\n$v = host\n$v = host\n$v = host\n$v = host\n$v = host\n$v = host"
+	for start := 0; start < len(vals); start++ {
+		ps := influxql.NewParser(strings.NewReader(text))
+		for k := 0; k < 9; k++ {
+			v := vals[(start+k)%len(vals)]
+			var got, want influxql.Expr
+			var eg, ew error
+			if p, pv, stk := mon.Try(func() {
+				ps.SetParams(map[string]interface{}{"v": v})
+				got, eg = ps.ParseExpr()
+				pw := influxql.NewParser(strings.NewReader("$v = host"))
+				pw.SetParams(map[string]interface{}{"v": v})
+				want, ew = pw.ParseExpr()
+			}); p {
+				r.Violation("panic", map[string]interface{}{"idx": -1, "input": text, "params": fmt.Sprintf("%#v", v), "why": fmt.Sprint(pv), "stack": stk})
+				return
+			}
+			r.Eval(1)
+			if (eg == nil) != (ew == nil) || (eg == nil && dumpOf(got) != dumpOf(want)) {
+				r.Violation("placeholder-value-differs", map[string]interface{}{"idx": -1, "input": text, "params": fmt.Sprintf("line %d, v re-bound to %#v just before it", k+1, v), "why": fmt.Sprintf("the line parses to %v (err %v); alone under the same binding it parses to %v (err %v)", got, eg, want, ew)})
+				return
+			}
+			r.Count("lines.rebound-before-each-line", 1)
+			if eg != nil {
+				break
+			}
+		}
+	}
+}
+
 func checkC07(c *Ctx) (string, bool, []string) {
 	r := c.R
 	rule := "templates = generated statements of all 44 kinds whose name / string / regex / integer / float / duration / boolean tokens (1-3 per template, any position the grammar has) are replaced by $name or $\"quoted name\"; parameter maps bind the original value (all Go / JSON kinds: plain, typed object, json.Number, int64 duration) or a hostile value of the same kind (quotes, semicolons, comment markers, keywords, NUL, CR, NaN, Inf, int64 extremes); each compared with the literal-written form, or with the template's structure when the value cannot be written; plus unbound / unbindable / empty-placeholder variants that must fail, half of them on a parser whose bindings were first set to the valid map and then replaced (SetParams twice, also with nil); a failing binding must keep failing when the map also binds keys spelled like the failure text or like the name with its sigil. Non-trivial = every case; distinct by (template, params)."
@@ -586,6 +758,7 @@ func checkC07(c *Ctx) (string, bool, []string) {
 		return rule, false, assume
 	}
 	n := c.N(60000, 2000000)
+	c07Lines(c)
 	mon.Parallel(n, c.Workers, func(i int) {
 		local := map[string]int64{}
 		c07One(c, i, local)
